@@ -39,7 +39,7 @@ struct TierParams { long long runs; double budget; const char *level; };
 TierParams tier_params(const std::string &prop, const std::string &tier) {
   bool th = tier == "thorough";
   const char *level = (prop == "C02" || prop == "C15" || prop == "C17") ? "fault_enumeration" : "exploration";
-  long long runs = th ? 200000 : 12000;
+  long long runs = th ? 300000 : 20000;
   double budget = th ? 600 : 40;
   if (prop == "C18") { runs = th ? 60000 : 4000; }
   if (prop == "C02" || prop == "C15" || prop == "C11") { runs = th ? 300000 : 16000; }
